@@ -248,8 +248,9 @@ where
         *this.bin_sender.lock().unwrap() = None;
 
         // Handle size verification and notification based on mode
-        match mem::replace(&mut *this.size_mode.lock().unwrap(), SizeMode::Known(this.bytes_written)) {
-            SizeMode::Known(expected) if this.bytes_written == expected => Poll::Ready(Ok(())),
+        let mut size_mode = this.size_mode.lock().unwrap();
+        match &*size_mode {
+            SizeMode::Known(expected) if this.bytes_written == *expected => Poll::Ready(Ok(())),
             SizeMode::Known(expected) => Poll::Ready(Err(io::Error::new(
                 ErrorKind::UnexpectedEof,
                 format!(
@@ -257,8 +258,11 @@ where
                     expected, this.bytes_written
                 ),
             ))),
-            SizeMode::Unknown(tx) => {
-                let _ = tx.send(this.bytes_written);
+            SizeMode::Unknown(_) => {
+                // The size becomes known now; an announced size is never replaced.
+                if let SizeMode::Unknown(tx) = mem::replace(&mut *size_mode, SizeMode::Known(this.bytes_written)) {
+                    let _ = tx.send(this.bytes_written);
+                }
                 Poll::Ready(Ok(()))
             }
         }
